@@ -236,6 +236,32 @@ func (e *Env) eval(x Expr) Val {
 		return intVal("(- " + v.T + ")")
 	case *EBinary:
 		return e.binary(n)
+	case *ECompLit:
+		srt, typ := e.typeByName(n.Type)
+		if typ == nil {
+			return e.fail("composite literal of unknown type %s", n.Type)
+		}
+		info := fc.B.structs[srt]
+		if info == nil {
+			return e.fail("composite literal of non-struct type %s", n.Type)
+		}
+		var parts []string
+		for _, f := range info.fields {
+			val := fc.zero(f.typ)
+			for i, nm := range n.Names {
+				if nm == f.name {
+					v := e.coerce(e.eval(n.Values[i]), f.typ)
+					val = v.T
+				}
+			}
+			parts = append(parts, val)
+		}
+		for _, nm := range n.Names {
+			if _, _, ok := fc.B.fieldOf(typ, nm); !ok {
+				return e.fail("no field %s in %s", nm, n.Type)
+			}
+		}
+		return fc.mkVal(typ, "("+info.ctor+" "+strings.Join(parts, " ")+")")
 	case *EIte:
 		c := e.eval(n.C)
 		a := e.eval(n.A)
@@ -789,6 +815,10 @@ func (e *Env) callExpr(n *ECall) Val {
 			un := "unmarshal_" + sanitize(v.S)
 			fc.B.DeclFun(fn, []string{v.S}, "String")
 			fc.B.DeclFun(un, []string{"String"}, v.S)
+			if t := "(" + fn + " " + v.T + ")"; !fc.B.inst[t] {
+				fc.B.inst[t] = true
+				fc.B.Assert(eq("("+un+" "+t+")", v.T)) // injective (dropped when under a quantifier)
+			}
 			return strVal("(" + fn + " " + v.T + ")")
 		case "strings1":
 			return Val{S: "(Slice String)", T: "(mkS false 1 (store ((as const (Array Int String)) \"\") 0 " + str(0) + "))", Typ: types.NewSlice(types.Typ[types.String])}
